@@ -17,7 +17,7 @@ ID = 'C19'
 LEVEL = 'exploration'
 RULE = ('tables = every subset of size <= 4 (quick) / every subset (thorough) of 11 series names (the five priority names, plain, qualified, '
         'mixed-case and underscore names) x 9 rotations of the value alphabet {0, 1, -1, 2.5, 1e-7, 123456789.0, -0.0, 1e300, int 7} x length '
-        'profile {equal, one shorter, one empty} x 5 format strings; solved blocks (3 horizons) rendered through EquationSolver.GenerateCSVtext '
+        'profile {equal, one shorter, one empty} x 5 format strings, and the history render -> store one more series (item assignment / AppendValue) -> render; solved blocks (3 horizons) rendered through EquationSolver.GenerateCSVtext '
         'with every format, incl. the step-trace holder; oracle (own TSV parser): header = every key once, priority names first in the '
         'documented order, rest alphabetical, rows = shortest series, every cell == format % value; non-trivial = tables with >= 2 columns')
 ASSUMPTIONS = [
@@ -125,6 +125,29 @@ def run_unit(unit, tier):
                             core.bump(res['outcomes'], 'violation')
                         else:
                             core.bump(res['outcomes'], 'ok-%dcols' % len(sub))
+                    # history: a series stored AFTER the table has been rendered must appear in the next rendering
+                    if profile == 'equal' and len(sub) >= 1:
+                        for how in ('setitem', 'AppendValue'):
+                            h2 = TimeSeriesHolder('k')
+                            for n in order:
+                                h2[n] = list(table[n])
+                            h2.GenerateCSVtext(FORMATS[0])
+                            t2 = dict((k, list(v)) for k, v in table.items())
+                            if how == 'setitem':
+                                h2['late_series'] = [5.0, 6.0, 7.0]
+                                t2['late_series'] = [5.0, 6.0, 7.0]
+                            else:
+                                h2.AppendValue('late_series', 5.0)
+                                t2['late_series'] = [5.0]
+                            case = {'kind': 'tables-late', 'names': order, 'shift': shift, 'how': how}
+                            v = check_text(h2.GenerateCSVtext(FORMATS[0]), t2, FORMATS[0], case, label='after-adding-series:')
+                            res['evaluations'] += 1
+                            res['nontrivial'] += 1
+                            if v:
+                                res['violations'].append(v)
+                                core.bump(res['outcomes'], 'late-violation')
+                            else:
+                                core.bump(res['outcomes'], 'late-ok')
                     if dict((k, list(v)) for k, v in h.items()) != table:
                         res['violations'].append(core.violation('rendering-mutates-holder', 'holder changed by rendering', {'kind': 'tables', 'names': order, 'shift': shift, 'profile': profile, 'fmt': FORMATS[0]}))
         res['samples'] = [{'columns': list(subs[-1]) if subs else [], 'formats': FORMATS}]
@@ -179,6 +202,20 @@ def run_unit(unit, tier):
 
 
 def replay(case):
+    if case['kind'] == 'tables-late':
+        table = make_table(case['names'], case['shift'], 'equal')
+        h2 = TimeSeriesHolder('k')
+        for n in case['names']:
+            h2[n] = list(table[n])
+        h2.GenerateCSVtext(FORMATS[0])
+        if case['how'] == 'setitem':
+            h2['late_series'] = [5.0, 6.0, 7.0]
+            table['late_series'] = [5.0, 6.0, 7.0]
+        else:
+            h2.AppendValue('late_series', 5.0)
+            table['late_series'] = [5.0]
+        v = check_text(h2.GenerateCSVtext(FORMATS[0]), table, FORMATS[0], case, label='after-adding-series:')
+        return [v] if v else []
     if case['kind'] == 'tables':
         table = make_table(case['names'], case['shift'], case['profile'])
         h = TimeSeriesHolder('k')
